@@ -114,6 +114,11 @@ def gen_set(rnd, n):
         rules[j].match = 'contains("%s") and amount > lim' % w
         rules[k].match = 'contains("%s") and amount > lim and month >= 0' % w
         rules[j].priority = rules[k].priority = None
+    if n >= 2 and rnd.random() < .15:
+        # two rules whose conditions differ only in the number of blanks INSIDE a quoted pattern (one bank prints one blank, another three)
+        j, k = rnd.sample(range(n), 2)
+        rules[j].match, rules[k].match = rnd.choice([('contains("uber   eats")', 'contains("uber eats")'), ('contains("WHOLE  FOODS")', 'contains("WHOLE FOODS")')])
+        rules[j].priority = rules[k].priority = None
     if n >= 2 and rnd.random() < .2:
         # two blocks under the same [Name] (a merchant's general rule and its special case): they are two rules, ranked each on its own
         j, k = rnd.sample(range(n), 2)
